@@ -104,6 +104,34 @@ def idleIds (v : View) : List Nat :=
 
 def allDone (v : View) : Bool := v.calls.all (· == .done)
 
+/-- a request was actually handed to this connection (`sent`) and its release (`rel`) has not
+    happened: the connection is lent in the implementation's sense -/
+def isBusy (v : View) (sid : Nat) : Bool :=
+  match v.sinks[sid]? with
+  | some k => k.lent.isSome && !k.opening
+  | none => false
+def busyIds (v : View) : List Nat := (List.range v.sinks.length).filter (isBusy v)
+
+/-! ### connects in flight (implementation's sense)
+
+  A connection is *being opened* from the `connecting` event (a caller's greenlet blocks in
+  `Open().wait()` of the connection it has just created and counted) until the operation
+  `opened sid ok` (that `Open()` completes; the greenlet resumes inside `_Get`).  This is a fact
+  about the environment, not about the pool: the specification keeps the list itself instead of
+  believing the picture of calls (in which a call whose caller has been answered still "holds"
+  the connection it was connecting). -/
+
+def rmConn (conn : List Nat) : Op → List Nat
+  | .opened sid _ => conn.filter (· != sid)
+  | _ => conn
+
+def addConn (conn : List Nat) : Ev → List Nat
+  | .connecting sid _ => conn ++ [sid]
+  | _ => conn
+
+/-- the connects still in flight after operation `op` emitted `evs` -/
+def connAfter (conn : List Nat) (op : Op) (evs : List Ev) : List Nat := evs.foldl addConn (rmConn conn op)
+
 /-- may call `c` be given a connection: it is arriving or waiting in the queue -/
 def startable (v : View) (c : Nat) : Bool :=
   v.calls[c]? == some .arriving || v.calls[c]? == some .pending
@@ -172,6 +200,7 @@ structure Mon where
   pstate : Nat := 1
   tasks : List Nat := []
   closedSeen : Bool := false
+  connects : List Nat := []   -- connections whose `Open()` is pending (see `connAfter`)
   deriving Repr
 
 def isRun : Op → Bool
@@ -250,6 +279,44 @@ def clIdle (cfg : Cfg) (v1 : View) (o : Obs) : Verdict :=
     .fail "idle-retains" [V.ofNat (aliveIds v1).length, V.ofNat cfg.min]
   else .ok
 
+/-- capacity is never leaked, connections are never lost.
+
+  (a) `capacity-leaked`: a connection that the picture still shows as being opened for a call
+      although its `Open()` is no longer pending: when the connect ended the pool neither handed
+      it the request (`sent`) nor returned it through `_Release` (`rel`) — it occupies a counted
+      slot, but is neither lent (in the implementation's sense: a request was handed to it and not
+      yet released), nor being opened, nor cached, nor in a deferred hand-off.
+  (b) `connection-lost`: a live connection that is neither lent nor being opened, nor cached, nor
+      in a deferred hand-off (the pool has dropped it without closing it).
+
+  `conn`: the connects in flight after this operation. -/
+def clLeak (v1 : View) (conn : List Nat) (o : Obs) : Verdict :=
+  match (openingIds v1).filter (fun sid => !conn.contains sid) with
+  | sid :: rest =>
+    .fail "capacity-leaked"
+      [.l ((sid :: rest).map V.ofNat), V.ofNat o.size, .l ((busyIds v1).map V.ofNat), .l (conn.map V.ofNat),
+       V.ofNats o.cache, V.ofNats o.tasks]
+  | [] =>
+    match (aliveIds v1).filter
+        (fun sid => !(isLent v1 sid || o.cache.contains sid || o.tasks.contains sid)) with
+    | sid :: rest =>
+      .fail "connection-lost" [.l ((sid :: rest).map V.ofNat), V.ofNats o.cache, V.ofNats o.tasks]
+    | [] => .ok
+
+/-- a call holds its connection until the server answers (also a zombie call, whose caller was
+    answered by the timer while the pool was still connecting): when the answer is posted into the
+    call's stack, the connection goes back through `_Release` (`capacity is never leaked`) -/
+def clAnswer (v0 : View) (op : Op) (o : Obs) : Verdict :=
+  match op with
+  | .respond c =>
+    match v0.calls[c]? with
+    | some (.started sid) =>
+      if o.evs.contains (.rel sid) then .ok else .fail "answer-not-released" [V.ofNat sid, V.ofNat c]
+    | some (.zombie sid) =>
+      if o.evs.contains (.rel sid) then .ok else .fail "answer-not-released" [V.ofNat sid, V.ofNat c]
+    | _ => .ok
+  | _ => .ok
+
 def isRaised : Ev → Bool
   | .raised _ => true
   | _ => false
@@ -270,7 +337,8 @@ def clRaise (op : Op) (o : Obs) : Verdict :=
 
 def postCheck (cfg : Cfg) (m : Mon) (v0 v1 : View) (op : Op) (o : Obs) : Verdict :=
   Verdict.all [clSurplus cfg m op o, clQueueBound cfg v1, clHandoff m v0 op o, clClose m v0 op o,
-    clSize v1 o, clWork v1 o, clIdle cfg v1 o, clRaise op o]
+    clSize v1 o, clLeak v1 (connAfter m.connects op o.evs) o, clAnswer v0 op o, clWork v1 o, clIdle cfg v1 o,
+    clRaise op o]
 
 def Mon.check (cfg : Cfg) (m : Mon) (op : Op) (o : Obs) : Verdict :=
   let v0 := preOp m.view op
@@ -281,13 +349,17 @@ def Mon.next (m : Mon) (op : Op) (o : Obs) : Mon :=
   { view := o.evs.foldl View.apply (preOp m.view op),
     pstate := o.pstate,
     tasks := o.tasks,
-    closedSeen := m.closedSeen || o.pstate == 4 }
+    closedSeen := m.closedSeen || o.pstate == 4,
+    connects := connAfter m.connects op o.evs }
 
 def specGo (cfg : Cfg) : Mon → List (Op × Obs) → Verdict
   | _, [] => .ok
   | m, (op, o) :: rest => (m.check cfg op o).and (fun _ => specGo cfg (m.next op o) rest)
 
 def spec (cfg : Cfg) (h : List (Op × Obs)) : Verdict := specGo cfg {} h
+
+/-- the monitor after a history (what the specification knows at that point) -/
+def monRun (m : Mon) (h : List (Op × Obs)) : Mon := h.foldl (fun m p => m.next p.1 p.2) m
 
 /-- hypotheses of the theorems: none is left (a failing first `Open()` of the pool is handled by
     the code since the repair of F5: the pool stays Closed and the open fails) -/
